@@ -84,6 +84,7 @@ def check_d1_d2(ctx) -> None:
     ctx.check(vr.equals(a(f'intersecttemperature[{i} - 1]') + a(f'self.gradient.value[{i}]') * a(f'self.layerthickness.value[{i}]')) and
               norm(rec[0].index) == i, 'D2', 'Reservoir.Calculate/interface-recurrence', f'{rel}:{rec[0].line}',
               f'interface temperatures: `{norm(rec[0].stmt)[:100]}`; expected T[i] = T[i-1] + gradient[i] x thickness[i] (equal subscripts)')
+    check_maxdepth(ctx, f, 'D2')
     pre = [s for s in top if isinstance(s, ast.Assign) and norm(s.targets[0]) == 'intersecttemperature' and 'self.Tsurf.value' in norm(s.value)]
     ctx.check(len(pre) == 1 and norm(pre[0].value) == '[self.Tsurf.value] + intersecttemperature', 'D2',
               'Reservoir.Calculate/surface-prepended', f'{rel}:{pre[0].lineno if pre else f.node.lineno}', 'surface temperature is not prepended to the interface temperatures')
@@ -97,6 +98,43 @@ def check_d1_d2(ctx) -> None:
     tv = [s for s in top if isinstance(s, ast.Assign) and norm(s.targets[0]) == 'self.timevector.value']
     ok = len(tv) == 1 and isinstance(tv[0].value, ast.Call) and dotted_name(tv[0].value.func) == 'np.linspace' and norm(tv[0].value.args[0]) == '0'
     ctx.check(ok, 'D3', 'Reservoir.Calculate/time-starts-at-zero', f'{rel}:{tv[0].lineno if tv else f.node.lineno}', 'the time vector does not start at 0')
+
+
+def check_maxdepth(ctx, f, rule: str) -> None:
+    """Depth at which Tmax is reached: thicknesses of the segments above + headroom over the last interface divided by the
+    gradient of the segment in which Tmax is reached (one consistent segment index)."""
+    rel = f.module.rel
+    a = Rat.atom
+
+    def at(n):
+        if isinstance(n, ast.Subscript):
+            return f'{norm(n.value)}[{norm(n.slice)}]'
+        return None
+    cands = [s for s in ast.walk(f.node) if isinstance(s, ast.Assign) and norm(s.targets[0]) == 'maxdepth' and 'self.Tmax.value' in norm(s.value)]
+    ctx.floor(rule, len(cands), 3, 'maxdepth definitions')
+    for s in cands:
+        v = _tr(s.value, atom_of=at)
+        if 'layerindex' in norm(s.value):
+            k = 'layerindex'
+            want = a('maxdepth') + (a('self.Tmax.value') - a(f'intersecttemperature[{k} - 1]')) / a(f'self.gradient.value[{k}]')
+            key, txt = 'Reservoir.Calculate/maxdepth/multi-segment', 'depth of the interfaces above + (Tmax - T[k-1]) / gradient[k]'
+        else:
+            want = (a('self.Tmax.value') - a('self.Tsurf.value')) / a('self.gradient.value[0]')
+            key, txt = f'Reservoir.Calculate/maxdepth/first-segment@{"single" if any("numseg" in norm(t) for t, p_ in guards_of(s, f.node)) and len(guards_of(s, f.node)) == 1 else "multi"}', '(Tmax - Tsurf) / gradient[0]'
+        ctx.check(v.equals(want), rule, key, f'{rel}:{s.lineno}',
+                  f'maximum-temperature depth is `{v.show()}`; expected {txt}: the temperature headroom must be divided by the gradient of '
+                  f'the segment in which Tmax is reached, otherwise bottom-hole temperature responds wrongly (even non-monotonically) to a '
+                  f'gradient', fact=txt)
+    acc = [s for s in loop_stores(f.node) if False]
+    sums = [s for s in ast.walk(f.node) if isinstance(s, ast.Assign) and norm(s.targets[0]) == 'maxdepth' and 'layerthickness' in norm(s.value)]
+    for s in sums:
+        v = _tr(s.value, atom_of=at)
+        loops = [p_ for p_ in ast.walk(f.node) if isinstance(p_, ast.For) and any(x is s for x in ast.walk(p_))]
+        ok = bool(loops) and v.equals(a('maxdepth') + a(f'self.layerthickness.value[{norm(loops[-1].target)}]')) and \
+            [norm(x) for x in loops[-1].iter.args] == ['0', 'layerindex']
+        ctx.check(ok, rule, 'Reservoir.Calculate/maxdepth/segments-above', f'{rel}:{s.lineno}',
+                  f'`{norm(s)[:80]}` over range({", ".join(norm(x) for x in loops[-1].iter.args) if loops else "?"}): the segments above the one in '
+                  f'which Tmax is reached are [0, layerindex)')
 
 
 def check_d3_d5(ctx) -> None:
